@@ -374,6 +374,26 @@ class Folder:
                 return int(*args)
             if name == 'sorted':
                 return sorted(args[0], key=repr)
+            # a module-level function of the repository that is one `return <expression>`: its value for constant arguments
+            fi = getattr(m, 'functions', {}).get(name) if name not in (env or {}) else None
+            if fi is not None and not fi.node.decorator_list:
+                body = [b for b in fi.node.body if not (isinstance(b, ast.Expr) and isinstance(b.value, ast.Constant))]
+                a = fi.node.args
+                if len(body) == 1 and isinstance(body[0], ast.Return) and body[0].value is not None and not a.vararg and not a.kwarg and not a.kwonlyargs \
+                        and len(args) + len(kwargs) <= len(a.args) + len(a.posonlyargs):
+                    params = [p.arg for p in a.posonlyargs + a.args]
+                    env2 = dict(zip(params, args))
+                    for k, v in kwargs.items():
+                        if k not in params or k in env2:
+                            raise NotConst(f'call {name}: argument {k}')
+                        env2[k] = v
+                    defaults = dict(zip(params[len(params) - len(a.defaults):], a.defaults))
+                    for p_ in params:
+                        if p_ not in env2:
+                            if p_ not in defaults:
+                                raise NotConst(f'call {name}: missing {p_}')
+                            env2[p_] = self.fold(defaults[p_], m, None, {})
+                    return self.fold(body[0].value, m, None, env2)
             raise NotConst(f'call {name}')
         raise NotConst('call')
 
